@@ -15,6 +15,7 @@
 package wire
 
 import (
+	"errors"
 	"io"
 	"time"
 
@@ -34,6 +35,14 @@ func WriteTime(t time.Time, w io.Writer, n *int, err *error) {
 
 func ReadTime(r io.Reader, n *int, err *error) time.Time {
 	t := ReadInt64(r, n, err)
+	if *err == nil && t%1000000 != 0 {
+		// bytes from a peer or a file: malformed input is an error, not a programming error
+		*err = errors.New("Time cannot have sub-millisecond precision")
+		return time.Unix(0, 0)
+	}
+	if *err != nil {
+		return time.Unix(0, 0)
+	}
 	if t%1000000 != 0 {
 		gcmn.PanicSanity("Time cannot have sub-millisecond precision")
 	}
